@@ -210,6 +210,8 @@ func c18child(c *h.Ctx, file string) string {
 	out := file + ".child.jsonl"
 	defer os.Remove(out)
 	cmd := exec.Command(os.Args[0], "c18child", "replay="+file, "out="+out)
+	// the second process also differs in its scheduling: one processor only
+	cmd.Env = append(os.Environ(), "GOMAXPROCS=1")
 	var stderr bytes.Buffer
 	cmd.Stderr, cmd.Stdout = &stderr, &stderr
 	if err := cmd.Run(); err != nil {
@@ -337,6 +339,8 @@ func c18exec(c *h.Ctx, cs *h.Case) {
 	}
 	pre := c18preambleOps()
 	text, haveText := "", false
+	var lastHC *app.CothorityConfig // what the last `private` op loaded, and what it read
+	lastPrivate := ""
 	var expect []string // the server ops the text must decode to
 	var outs []string
 	newFile := func(suffix string) string {
@@ -374,6 +378,11 @@ func c18exec(c *h.Ctx, cs *h.Case) {
 			if note != "" {
 				cs.Fail("roster-id-not-from-keys", note)
 			}
+			if want, ok := c18filePubs(text); ok && strings.HasPrefix(first, "ok ") {
+				if got := c18dumpPubs(first); strings.Join(got, ",") != strings.Join(want, ",") {
+					cs.Fail("order-vs-file", fmt.Sprintf("the identities are not in the order of the file's servers (%d servers):\nfile  %v\nread  %v", len(want), want, got))
+				}
+			}
 			for i := 1; i < n; i++ {
 				c18ensure(file, text)
 				if d, _, _ := c18readGroup(file); d != first {
@@ -407,7 +416,7 @@ func c18exec(c *h.Ctx, cs *h.Case) {
 				break
 			}
 			file2 := newFile(".group.toml")
-			os.MkdirAll(filepath.Dir(file2), 0700)
+			c18prefill(file2, c18histories[int(atomic.LoadInt64(&c18fileSeq))%len(c18histories)], text) // whatever the path held before
 			func() {
 				defer func() {
 					if r := recover(); r != nil {
@@ -484,12 +493,116 @@ func c18exec(c *h.Ctx, cs *h.Case) {
 				os.Remove(file2)
 			}
 			obs = first
+			lastHC, lastPrivate = hc, first
 			outs = append(outs, "private:"+c18class(first))
+		case len(tk) == 4 && tk[1] == "resave":
+			// file-system history: the path already holds something (history), the configuration that
+			// was loaded is saved there, the file is read n times. The file after Save is the saved
+			// configuration, whatever was there before.
+			n, _ := strconv.Atoi(tk[3])
+			known := false
+			for _, hh := range c18histories {
+				known = known || hh == tk[2]
+			}
+			if lastHC == nil || !known || n < 1 {
+				break
+			}
+			file2 := newFile(".private.toml")
+			c18prefill(file2, tk[2], text)
+			if err := lastHC.Save(file2); err != nil {
+				obs = "save-err"
+				cs.Fail("save-over-existing", "saving the private configuration failed: "+err.Error())
+				os.Remove(file2)
+				break
+			}
+			second, _ := c18readPrivate(file2)
+			if strings.HasPrefix(second, "io-error") || second == "load-err" {
+				if _, err := os.Stat(file2); err != nil { // work directory swept by a concurrent run
+					c18prefill(file2, tk[2], text)
+					lastHC.Save(file2)
+					second, _ = c18readPrivate(file2)
+				}
+			}
+			for i := 1; i < n; i++ {
+				if d, _ := c18readPrivate(file2); d != second {
+					cs.Fail("parses-disagree", fmt.Sprintf("read %d of the saved private configuration differs from read 1:\n%s\n%s", i+1, second, d))
+					break
+				}
+			}
+			if second != lastPrivate {
+				content, _ := ioutil.ReadFile(file2)
+				tail := string(content)
+				if len(tail) > 300 {
+					tail = "…" + tail[len(tail)-300:]
+				}
+				cs.Fail("save-over-existing", fmt.Sprintf("a configuration saved to a path that held %q content reads back differently:\nloaded %s\nreread %s\nend of the file: %q", tk[2], lastPrivate, second, tail))
+			}
+			os.Remove(file2)
+			obs = second
+			outs = append(outs, "resave-"+tk[2]+":"+c18class(second))
 		}
 		cs.Impl = append(cs.Impl, obs)
 	}
 	cs.Outcome = strings.Join(outs, ",")
 }
+
+// c18filePubs: the servers' public keys in the order of the file (lower-case hex of the bytes read)
+func c18filePubs(text string) ([]string, bool) {
+	gt := &app.GroupToml{}
+	if _, err := toml.Decode(text, gt); err != nil {
+		return nil, false
+	}
+	var l []string
+	for _, s := range gt.Servers {
+		n := s.Suite
+		if n == "" {
+			n = "Ed25519"
+		}
+		su, err := suites.Find(n)
+		if err != nil || len(s.Public) < 2*su.Point().MarshalSize() {
+			return nil, false
+		}
+		l = append(l, strings.ToLower(s.Public[:2*su.Point().MarshalSize()]))
+	}
+	return l, true
+}
+
+// c18dumpPubs: the public keys of the identities of a dump, in list order
+func c18dumpPubs(d string) []string {
+	var l []string
+	if !strings.HasPrefix(d, "ok ") {
+		return nil
+	}
+	body := strings.TrimPrefix(d, "ok ")
+	if i := strings.LastIndex(body, " pre="); i >= 0 {
+		body = body[:i]
+	}
+	for _, p := range strings.Split(body, ";") {
+		if strings.HasPrefix(p, "pub=") {
+			l = append(l, strings.SplitN(strings.TrimPrefix(p, "pub="), ",", 2)[0])
+		}
+	}
+	return l
+}
+
+// c18prefill writes what the path held before the code under test saves to it
+func c18prefill(file, history, text string) {
+	os.MkdirAll(filepath.Dir(file), 0700)
+	switch history {
+	case "fresh":
+		os.Remove(file)
+	case "shorter":
+		ioutil.WriteFile(file, []byte("x = 1\n"), 0600)
+	case "garbage":
+		ioutil.WriteFile(file, []byte(text+"\n"+strings.Repeat(strings.Repeat("x", 60)+"\n", 160)), 0600)
+	case "keys":
+		ioutil.WriteFile(file, []byte(text+"\n"+strings.Repeat("description = \"left over\"\npublic = \"00\"\n", 200)), 0600)
+	case "inplace":
+		ioutil.WriteFile(file, []byte(text), 0600)
+	}
+}
+
+var c18histories = []string{"fresh", "shorter", "garbage", "keys", "inplace"}
 
 // c18sameSuites: every server of the group file uses the given suite (premise of the write/read claim)
 func c18sameSuites(text, suite string) bool {
@@ -541,6 +654,8 @@ type c18genT struct {
 	c    *h.Ctx
 	r    *rand.Rand
 	keys map[string][]c18key
+	// big groups: number of servers (0 = 0..4) and clean entries only
+	forceN int
 }
 
 func (g *c18genT) pick(l ...string) string { return l[g.r.Intn(len(l))] }
@@ -697,12 +812,15 @@ func (g *c18genT) groupText(maxSvc int, sameSuite string) (string, string) {
 	if g.r.Intn(40) == 0 {
 		n = 0
 	}
+	if g.forceN > 0 {
+		n = g.forceN
+	}
 	var tags []string
 	fileSuite := "Ed25519"
 	if g.r.Intn(3) == 0 {
 		fileSuite = c18suiteNames[g.r.Intn(len(c18suiteNames))]
 	}
-	mixed := g.r.Intn(8) == 0 // servers of different suites: NewRoster cannot add their keys
+	mixed := g.r.Intn(8) == 0 && g.forceN == 0 // servers of different suites: NewRoster cannot add their keys
 	for i := 0; i < n; i++ {
 		suite := fileSuite
 		if mixed && g.r.Intn(2) == 0 {
@@ -737,6 +855,17 @@ func (g *c18genT) groupText(maxSvc int, sameSuite string) (string, string) {
 		g.r.Shuffle(len(fields), func(a, b int) { fields[a], fields[b] = fields[b], fields[a] })
 		sb.WriteString(strings.Join(fields, "\n") + "\n")
 		lines, st := g.services("servers", false, maxSvc)
+		if g.forceN > 0 {
+			// big group: clean entries; the early servers hold the keys that are slow to decode
+			lines, st = nil, "0svc"
+			if i < 3 || g.r.Intn(6) == 0 {
+				for _, nme := range []string{"c18svcBn", "c18svcG1", "c18svcQR", "c18svcEd"} {
+					su := onet.ServiceFactory.Suite(nme).String()
+					lines = append(lines, fmt.Sprintf("  [servers.Services.%s]", nme), "    Public = "+c18quote(g.key(su).pub), "    Suite = "+c18quote(su))
+				}
+				st = "4svc"
+			}
+		}
 		if len(lines) > 0 {
 			sb.WriteString(strings.Join(lines, "\n") + "\n")
 		}
@@ -824,6 +953,7 @@ func c18generate(c *h.Ctx, yield func(*h.Case)) {
 		c.Count(fmt.Sprintf("servers=%d", len(ops)-1))
 		yield(cs)
 	}
+	resaveHistory := "" // histories of the resave ops appended to the next private case
 	emitPrivate := func(class, text string, reads int, child bool) {
 		op, ok := c18privateOp(text, reads, child)
 		if !ok {
@@ -833,6 +963,12 @@ func c18generate(c *h.Ctx, yield func(*h.Case)) {
 		cs := &h.Case{Class: class}
 		cs.Ops = append(cs.Ops, pre...)
 		cs.Ops = append(cs.Ops, "c18 text "+c18hex(text), op)
+		if resaveHistory != "" {
+			for _, hh := range strings.Split(resaveHistory, ",") {
+				cs.Ops = append(cs.Ops, fmt.Sprintf("c18 resave %s %d", hh, 4))
+				c.Count("resave=" + hh)
+			}
+		}
 		c.Count("kind=private")
 		yield(cs)
 	}
@@ -850,6 +986,7 @@ func c18generate(c *h.Ctx, yield func(*h.Case)) {
 			ks := g.key("Ed25519")
 			ptxt += fmt.Sprintf("[Services.%s]\n  Public = \"%s\"\n  Private = \"%s\"\n  Suite = \"Ed25519\"\n", nme, ks.pub, ks.priv)
 		}
+		resaveHistory = "garbage,inplace,keys,shorter,fresh"
 		emitPrivate("corpus-map-order", ptxt, 50, true)
 		// services whose names differ only in case: the order is the byte order of the names
 		ctxt := fmt.Sprintf("[[servers]]\n  Address = \"tcp://127.0.0.1:7000\"\n  Suite = \"Ed25519\"\n  Public = \"%s\"\n  Description = \"x\"\n", k.pub)
@@ -861,6 +998,12 @@ func c18generate(c *h.Ctx, yield func(*h.Case)) {
 		}
 		emitGroup("corpus-case-only-names", ctxt, 50, true, "Ed25519")
 		emitPrivate("corpus-case-only-names", cptxt, 50, true)
+		resaveHistory = ""
+		// a big group (the order of the identities is the order of the file, whatever the size)
+		g.forceN = 12
+		btxt, _ := g.groupText(0, "Ed25519")
+		g.forceN = 0
+		emitGroup("corpus-big-group", btxt, 30, true, "Ed25519")
 	}
 	maxSvc := c.Pick(4, 6)
 	total := c.Pick(9000, 60000)
@@ -893,7 +1036,27 @@ func c18generate(c *h.Ctx, yield func(*h.Case)) {
 			emitGroup("group-one-suite:"+c18tagClass(tag), text, reads, child, su)
 		default:
 			text, tag := g.privateText(maxSvc)
+			resaveHistory = ""
+			if g.r.Intn(2) == 0 {
+				resaveHistory = c18histories[g.r.Intn(len(c18histories))]
+			}
 			emitPrivate("private:"+c18tagClass(tag), text, reads, child)
+			resaveHistory = ""
+		}
+		if i%c.Pick(60, 40) == 0 {
+			// big groups: 8..24 servers of one suite, slow service keys on the first servers
+			g.forceN = 8 + g.r.Intn(17)
+			su := "Ed25519"
+			if g.r.Intn(4) == 0 {
+				su = c18suiteNames[g.r.Intn(len(c18suiteNames))]
+			}
+			text, _ := g.groupText(0, su)
+			g.forceN = 0
+			ws := ""
+			if g.r.Intn(3) == 0 {
+				ws = su
+			}
+			emitGroup("group-big:"+su, text, reads, i%c.Pick(120, 80) == 0, ws)
 		}
 	}
 }
